@@ -68,11 +68,14 @@ type AnyMaps struct {
 
 // field names at both ends of the alphabet (the first letter is lower-cased on the wire and
 // capitalised again by the reader)
+type SID string
 type Edges struct {
 	Zed   int32
 	Apple string
 	Zz    bool
 	Az    int64
+	Ñu    int32 // a first letter outside ASCII: lower-cased on the wire? no - left as it is, whole
+	Sid   SID   // a named string type
 	Mid   *Edges
 }
 
@@ -102,6 +105,14 @@ type NamedLists struct {
 	MT map[string]Tags
 	B  Blob
 	LB []Blob
+}
+
+// a named map type that contains itself, as a struct field (values arrive as untyped maps and are
+// converted level by level); not a zoo type: the models have no finite type expression for it, it
+// is used by the hostile-input check only
+type Forest struct {
+	T SelfMap
+	N int32
 }
 
 type StrMap map[string]string
